@@ -5,6 +5,12 @@ from .tokens import Token, TokenType, KEYWORDS
 from .errors import JSSyntaxError
 
 
+def _is_digit(ch: str) -> bool:
+    """One of 0-9. str.isdigit() is true for many more characters (superscripts,
+    the digits of other scripts), none of which is a digit of a numeric literal."""
+    return len(ch) == 1 and "0" <= ch <= "9"
+
+
 class Lexer:
     """Tokenizes JavaScript source code."""
 
@@ -195,15 +201,15 @@ class Lexer:
             # Could be 0, 0.xxx, or 0e... - fall through to decimal handling
 
         # Decimal number (integer part)
-        while self._current() and self._current().isdigit():
+        while self._current() and _is_digit(self._current()):
             self._advance()
 
         # Decimal point
         is_float = False
-        if self._current() == "." and self._peek().isdigit():
+        if self._current() == "." and _is_digit(self._peek()):
             is_float = True
             self._advance()  # .
-            while self._current() and self._current().isdigit():
+            while self._current() and _is_digit(self._current()):
                 self._advance()
 
         # Exponent
@@ -212,9 +218,9 @@ class Lexer:
             self._advance()
             if self._current() in "+-":
                 self._advance()
-            if not self._current() or not self._current().isdigit():
+            if not self._current() or not _is_digit(self._current()):
                 raise JSSyntaxError("Invalid number literal", line, col)
-            while self._current() and self._current().isdigit():
+            while self._current() and _is_digit(self._current()):
                 self._advance()
 
         num_str = self.source[start : self.pos]
@@ -249,7 +255,7 @@ class Lexer:
             return Token(TokenType.STRING, value, line, column)
 
         # Number literals
-        if ch.isdigit() or (ch == "." and self._peek().isdigit()):
+        if _is_digit(ch) or (ch == "." and _is_digit(self._peek())):
             value = self._read_number()
             return Token(TokenType.NUMBER, value, line, column)
 
